@@ -3,7 +3,7 @@
 //! `%expect` / `%expect-rr` declarations and report whether the build fails.
 //! case:   `<kind> <hexsrc>`
 //! result: `CT <ok|err|panic> sr=<n> rr=<n> expect=<n|-> expectrr=<n|-> conflicts=<some|none> msg=<hex of the start of the error text>`
-//!         or the grammar/table construction error (`GRMERR …`/`TBLERR …`) when the grammar does not build at all.
+//!         or the grammar/table construction error (`GRMERR …` / `TBLERR … # <grammar dump>`) when the grammar does not build at all.
 //! sr/rr are the lengths of StateTable::conflicts() of an independently built
 //! table (public API); expect/expectrr are YaccGrammar::expect()/expectrr().
 //! CTParserBuilder keeps a process-global set of generated paths, so every
@@ -32,7 +32,14 @@ fn main() {
         let src = unhex(hs.next().unwrap_or(""));
         let b = match catch(std::panic::AssertUnwindSafe(|| build(&kind, &src))) {
             Err(m) => return format!("BUILDPANIC {}", m.replace('\n', " ")),
-            Ok(Err(e)) => return e,
+            Ok(Err(e)) => {
+                // the table could not be built: still dump the grammar (if it parses) so that the
+                // accept/reduce oracle can be run on it
+                return match cfgrammar::yacc::YaccGrammar::<u32>::new_with_storaget(yacckind(&kind), &src) {
+                    Ok(grm) => format!("{} # {}", e, dump_grammar(&grm)),
+                    Err(_) => e,
+                };
+            }
             Ok(Ok(b)) => b,
         };
         let (sr, rr, some) = match b.st.conflicts() {
